@@ -911,19 +911,21 @@ class Frame(object):
 
         start_index = self.get_index(f_start)
 
-        # Calculate the bounding box, to optimize signal insertion calculation
-        px_width_offset = 2 * width / self.df
-        if drift_rate < 0:
-            px_width_offset = -px_width_offset
+        # Calculate the bounding box, to optimize signal insertion calculation.
+        # Offsets are rounded outwards, so that narrow or slowly drifting
+        # signals are never left with an empty box.
+        px_width_offset = int(np.ceil(2 * width / self.df))
         px_drift_offset = self.dt * (self.tchans - 1) * drift_rate / self.df
         if doppler_smearing:
             px_drift_offset += drift_rate * self.dt / self.df
 
-        bounding_start_index = start_index + int(-px_width_offset)
-        bounding_stop_index = start_index + int(px_drift_offset + px_width_offset)
+        bounding_start_index = (start_index + int(np.floor(min(px_drift_offset, 0)))
+                                - px_width_offset)
+        bounding_stop_index = (start_index + int(np.ceil(max(px_drift_offset, 0)))
+                               + px_width_offset + 1)
 
-        bounding_min_index = max(min(bounding_start_index, bounding_stop_index), 0)
-        bounding_max_index = min(max(bounding_start_index, bounding_stop_index), self.fchans)
+        bounding_min_index = max(bounding_start_index, 0)
+        bounding_max_index = min(bounding_stop_index, self.fchans)
 
         # Select common frequency profile types
         if f_profile_type == 'gaussian':
